@@ -583,4 +583,35 @@ func moveStrings(c *fw.Ctx, r *rand.Rand, p ref.Pos) {
 	if d := adapt.TakeSnap(e.Board()).DiffNoResult(snap); d != "" {
 		c.Violate("text:rejected-changed-state", "after the move-string session in %q the board differs: %s", p.FEN(), d)
 	}
+	// FEN strings through the engine: a rejected one leaves the game alone, an accepted one is the new game
+	for i := 0; i < 12; i++ {
+		s := mutate(r, p.FEN())
+		before := e.Position()
+		var err error
+		func() {
+			defer func() {
+				if rec := recover(); rec != nil {
+					c.Violate("text:enginereset-panic", "Engine.Reset(%q) panicked: %v", clip(s), rec)
+					err = fmt.Errorf("panic")
+				}
+			}()
+			err = e.Reset(ctx, s)
+		}()
+		c.Eval(1)
+		c.Count("engine_reset_inputs", 1)
+		if err != nil {
+			if got := e.Position(); got != before {
+				c.Violate("text:rejected-changed-state", "rejected Engine.Reset(%q) changed the game from %q to %q", clip(s), before, got)
+			}
+			continue
+		}
+		pos, turn, np, fm, derr := fen.Decode(s)
+		if derr != nil || pos == nil {
+			c.Violate("text:enginereset-accept", "Engine.Reset accepted %q which fen.Decode rejects", clip(s))
+			continue
+		}
+		if got, want := e.Position(), fen.Encode(pos, turn, np, fm); got != want {
+			c.Violate("text:enginereset-state", "after Engine.Reset(%q) the engine reports %q, the string decodes to %q", clip(s), got, want)
+		}
+	}
 }
